@@ -55,6 +55,8 @@ func parseE2E(a []string) *e2eCase {
 			c.cc.peer = v
 		case "seg":
 			c.cc.seg, _ = strconv.Atoi(v)
+		case "frag":
+			c.cc.frag, _ = strconv.Atoi(v)
 		case "tlsmax":
 			n, _ := strconv.ParseUint(v, 16, 16)
 			c.cc.maxVer = uint16(n)
@@ -415,8 +417,16 @@ func genE2EScenario(c *ctx, r *rng, sub bool) string {
 			if sub {
 				opts = ""
 			}
+			seg := []int{0, 0, 1, 2, 3}[r.intn(5)]
+			if !sub && r.chance(1, 15) {
+				// the ClientHello re-framed over two TLS records (finding D9): the handshake completes, the capture is the
+				// first record only
+				extraOpts += fmt.Sprintf(" frag=%d", []int{1, 3, 4, 5, 38, 39, 45, 80, 150}[r.intn(9)])
+				seg = 0
+				c.tag("hello-over-two-records")
+			}
 			return fmt.Sprintf("proto=%s client=%s alpn=%s sni=%s peer=%s seg=%d%s%s reqs=%s frames=%s", proto, kind, alpn, sni, peer,
-				[]int{0, 0, 1, 2, 3}[r.intn(5)], opts, extraOpts, strings.Join(reqs, ";"), fr)
+				seg, opts, extraOpts, strings.Join(reqs, ";"), fr)
 		}
 	}
 }
